@@ -471,12 +471,12 @@ class Interp(ModelMixin):
                 if isinstance(c, Raise):
                     res.append((('raise', c.exc), s))
                     continue
-                bounds = [b for b in (target.slice.lower, target.slice.upper, target.slice.step) if b is not None]
-                for bv, s2 in self.ev_all(bounds, s):
+                names = [n for n in ('lower', 'upper', 'step') if getattr(target.slice, n) is not None]
+                for bv, s2 in self.ev_all([getattr(target.slice, n) for n in names], s):
                     if isinstance(bv, Raise):
                         res.append((('raise', bv.exc), s2))
                     else:
-                        res.extend(self._lift(self.model_slice_store(c, target.slice, bv, val, s2, node)))
+                        res.extend(self._lift(self.model_slice_store(c, target.slice, dict(zip(names, bv)), val, s2, node)))
             return res
         if isinstance(target, ast.Subscript):
             res = []
@@ -999,8 +999,16 @@ class Interp(ModelMixin):
                 return ExtV('result:' + tgt[1])
             if isinstance(expr.func, ast.Name) and expr.func.id == 'object':
                 return ExtV('sentinel:' + mod.name + ':' + (gname or norm(expr)))
-        if isinstance(expr, (ast.Tuple, ast.List, ast.Set)) and all(isinstance(x, ast.Constant) for x in expr.elts):
-            return TupleV(tuple(Const(x.value) for x in expr.elts))
+        if isinstance(expr, (ast.Tuple, ast.List, ast.Set)):
+            items = [self.module_global(mod, x, st) for x in expr.elts]
+            if all(isinstance(x, (Const, NoneV, TupleV, ClsV, FuncV)) for x in items):
+                return TupleV(tuple(items))
+        if isinstance(expr, (ast.Name, ast.Attribute)):
+            tgt = self.prog.resolve_name_expr(mod, expr)
+            if isinstance(tgt, ClassInfo):
+                return ClsV(tgt.qualname)
+            if isinstance(tgt, FuncInfo):
+                return FuncV(tgt.qualname)
         return Unknown('module global ' + norm(expr))
 
     def ext_value(self, dotted):
@@ -1018,14 +1026,70 @@ class Interp(ModelMixin):
                 res.extend(self.getattr_(o, e.attr, s, e))
         return res
 
+    def _display(self, e, st):
+        """Evaluate the elements of a tuple/list display; a starred element of fixed length is spliced in,
+        otherwise the display becomes a list whose templates are the fixed elements plus those of the starred lists."""
+        if not any(isinstance(x, ast.Starred) for x in e.elts):
+            return [((v, None) if not isinstance(v, Raise) else (v, None), s) for v, s in self.ev_all(e.elts, st)]
+        outs = [(((), []), st)]
+        for x in e.elts:
+            nxt = []
+            for (acc, stars), s in outs:
+                for v, s2 in self.ev(x.value if isinstance(x, ast.Starred) else x, s):
+                    if isinstance(v, Raise):
+                        nxt.append(((v, None), s2))
+                    elif isinstance(x, ast.Starred):
+                        if isinstance(v, TupleV):
+                            nxt.append(((acc + v.items, stars), s2))
+                        elif isinstance(v, Ref) and v.kind == 'list' and s2.get(v.sym).kind == 'lit':
+                            nxt.append(((acc + s2.get(v.sym).items, stars), s2))
+                        else:
+                            nxt.append(((acc, stars + [v]), s2))
+                    else:
+                        nxt.append(((acc + (v,), stars), s2))
+            outs = [o for o in nxt if not isinstance(o[0][0], Raise)] + [o for o in nxt if isinstance(o[0][0], Raise)]
+            if any(isinstance(o[0][0], Raise) for o in outs):
+                return [((o[0][0], None), o[1]) for o in outs if isinstance(o[0][0], Raise)] + \
+                       [o for o in outs if not isinstance(o[0][0], Raise)]
+        return outs
+
     def ev_Tuple(self, e, st):
-        return [((TupleV(v) if not isinstance(v, Raise) else v), s) for v, s in self.ev_all(e.elts, st)]
+        res = []
+        for (v, stars), s in self._display(e, st):
+            if isinstance(v, Raise):
+                res.append((v, s))
+            elif not stars:
+                res.append((TupleV(tuple(v)), s))
+            else:
+                res.append((self._chain_list(v, stars, s), s))
+        return res
+
+    def _chain_list(self, fixed, stars, st):
+        items, owned, lo = list(fixed), [()] * len(fixed), len(fixed)
+        ordered = True
+        parts = [('fixed', tuple(fixed))]
+        for v in stars:
+            if isinstance(v, Ref) and v.kind == 'list':
+                le = st.get(v.sym)
+                lo += le.lo
+                ordered = ordered and le.ordered
+                for j, t in enumerate(le.items):
+                    items.append(t)
+                    owned.append(le.owned[j] if j < len(le.owned) else ())
+                parts.append(('list', v.sym))
+            else:
+                items.append(Unknown('starred element'))
+                owned.append(())
+        sym = st.new(ListE('chain', min(lo, 2), None, items=tuple(items), owned=tuple(owned), ordered=ordered, stages=('display',), spec=tuple(parts)))
+        return Ref('list', sym)
 
     def ev_List(self, e, st):
         res = []
-        for v, s in self.ev_all(e.elts, st):
+        for (v, stars), s in self._display(e, st):
             if isinstance(v, Raise):
                 res.append((v, s))
+            elif stars:
+                res.append((self._chain_list(v, stars, s), s))
             else:
                 sym = s.new(ListE('lit', lo=len(v), hi=len(v), items=tuple(v), distinct=(len(v) == 0)))
                 res.append((Ref('list', sym), s))
@@ -1196,7 +1260,95 @@ class Interp(ModelMixin):
         return self.comprehension(e, st, 'dict')
 
     # -- calls
+    def _any_all(self, e, st):
+        """any(<cond> for v in xs) / all(...) : the loop with early exit, so that conditions fold on literals and the
+        overall-False (any) / overall-True (all) path carries the facts of every iteration."""
+        gen = e.args[0]
+        g = gen.generators[0]
+        want_any = e.func.id == 'any'
+        res = []
+        names = [n.id for n in ast.walk(g.target) if isinstance(n, ast.Name)]
+        saved = {n: st.frame.env[n] for n in names if n in st.frame.env}
+        for it, s in self.ev(g.iter, st):
+            if isinstance(it, Raise):
+                res.append((it, s))
+                continue
+
+            def body(elem, s2):
+                outs = []
+                for ctl, s3 in self.assign(g.target, elem, s2, e):
+                    if ctl != NEXT:
+                        outs.append((ctl, s3))
+                        continue
+                    conds = [(True, s3)]
+                    for c in list(g.ifs):
+                        nxt = []
+                        for ok, s4 in conds:
+                            nxt.extend(self.cond(c, s4) if ok is True else [(ok, s4)])
+                        conds = nxt
+                    for ok, s4 in conds:
+                        if isinstance(ok, Raise):
+                            outs.append((('raise', ok.exc), s4))
+                        elif not ok:
+                            outs.append((NEXT, s4))
+                        else:
+                            for b, s5 in self.cond(gen.elt, s4):
+                                if isinstance(b, Raise):
+                                    outs.append((('raise', b.exc), s5))
+                                elif b == want_any:
+                                    outs.append((('ret', Const(want_any)), s5))      # early exit
+                                else:
+                                    outs.append((NEXT, s5))
+                return outs
+            exits, escapes = self.run_loop(it, s, body, e)
+            for _, s2 in exits:
+                if want_any:
+                    self._any_all_fact(gen, g, s2, it)       # every element compared unequal
+                res.append((Const(not want_any), s2))
+            for ctl, s2 in escapes:
+                if isinstance(ctl, tuple) and ctl[0] == 'ret':
+                    res.append((ctl[1], s2))
+                elif isinstance(ctl, tuple) and ctl[0] == 'raise':
+                    res.append((Raise(ctl[1]), s2))
+        for v, s in res:
+            for n in names:
+                s.frame.env.pop(n, None)
+            s.frame.env.update(saved)
+        return res
+
+    def _any_all_fact(self, gen, g, st, it):
+        """`any(x is v for v in L)` was False, i.e. the comparison failed for every element: x not-in L (and not in
+        the lists L was displayed from)"""
+        if g.ifs:
+            return
+        c = gen.elt
+        if isinstance(c, ast.Compare) and len(c.ops) == 1 and isinstance(c.ops[0], (ast.Is, ast.Eq)) and isinstance(g.target, ast.Name):
+            sides = [c.left, c.comparators[0]]
+            other = [x for x in sides if not (isinstance(x, ast.Name) and x.id == g.target.id)]
+            if len(other) == 1 and isinstance(other[0], ast.Name):
+                x = st.frame.env.get(other[0].id)
+                lists = []
+                if isinstance(it, Ref) and it.kind == 'list':
+                    le = st.get(it.sym)
+                    lists = [it.sym] + [p[1] for p in (le.spec or ()) if isinstance(p, tuple) and p and p[0] == 'list']
+                if isinstance(g.iter, (ast.Tuple, ast.List)):          # (a, *names): the starred lists themselves
+                    for el in g.iter.elts:
+                        if isinstance(el, ast.Starred) and isinstance(el.value, ast.Name):
+                            lv = st.frame.env.get(el.value.id)
+                            if isinstance(lv, Ref) and lv.kind == 'list':
+                                lists.append(lv.sym)
+                elif isinstance(g.iter, ast.Name):
+                    lv = st.frame.env.get(g.iter.id)
+                    if isinstance(lv, Ref) and lv.kind == 'list':
+                        lists.append(lv.sym)
+                if isinstance(x, Ref) and x.kind == 'elem':
+                    for L in lists:
+                        st.facts.add(('notin', x.sym, L))
+
     def ev_Call(self, e, st):
+        if isinstance(e.func, ast.Name) and e.func.id in ('any', 'all') and e.func.id not in st.frame.env and len(e.args) == 1 \
+                and not e.keywords and isinstance(e.args[0], (ast.GeneratorExp, ast.ListComp)) and len(e.args[0].generators) == 1:
+            return self._any_all(e, st)
         # super()
         if isinstance(e.func, ast.Name) and e.func.id == 'super' and 'super' not in st.frame.env:
             return [(self.super_value(st, e), st)]
